@@ -39,7 +39,67 @@ func init() {
 
 var c14Zooms = [][2]int64{{20, 20}, {18, 25}, {25, 25}, {22, 10}, {16, 16}, {30, 30}, {12, 20}, {26, 26}, {35, 35}, {8, 8}, {5, 14}, {24, 30}}
 
+// c14Huge: a corridor whose search box holds more than 2^21 candidate voxels (a line of ~19000 voxels at zooms 20/20,
+// radius 40 m, skip mode): duplicate-free, contains the line, equals line + N-layer box (thorough tier only).
+func c14Huge(c *core.Case) {
+	a, _ := object.NewPoint(139.0+float64(c.I), 35.0, 10)
+	b, _ := object.NewPoint(139.0+float64(c.I)+6.6, 35.0+0.35, 400)
+	const h, v, rad = 20, 20, 40.0
+	c.Tag("huge-corridor")
+	c.NonTrivial()
+	c.KI(c.I)
+	var obs []string
+	c.Desc = func() any { return map[string]any{"scenario": "corridor with > 2^21 candidates", "observed": obs} }
+	line, err := shape.GetExtendedSpatialIdsOnLine(a, b, h, v)
+	if err != nil {
+		c.Fail("line-error", nil, "%v", err)
+		return
+	}
+	got, err := transform.GetExtendedSpatialIdsWithinRadiusOfLine(a, b, rad, h, v, true)
+	c.Calls(2)
+	if err != nil {
+		c.Fail("corridor-error", nil, "huge corridor returned %v", err)
+		return
+	}
+	gs, dup := ref.SetOfExt(got)
+	obs = append(obs, fmt.Sprintf("line %d voxels, corridor %d IDs (%d distinct)", len(line), len(got), len(gs)))
+	if dup {
+		c.Fail("corridor-duplicates", nil, "corridor over a line of %d voxels returned %d IDs but only %d distinct", len(line), len(got), len(gs))
+		return
+	}
+	for _, s := range line {
+		if _, ok := gs[s]; !ok {
+			c.Fail("corridor-misses-line", nil, "huge corridor does not contain line voxel %s", s)
+			return
+		}
+	}
+	st, _ := shape.GetExtendedSpatialIdsOnPoints([]*object.Point{a}, h, v)
+	hl, vl, err := transform.FitClearanceAroundExtendedSpatialID(st[0], rad)
+	if err != nil {
+		c.Fail("fit-error", nil, "%v", err)
+		return
+	}
+	box, err := operated.GetNspatialIdsAroundVoxcels(line, hl, vl)
+	c.Calls(3)
+	if err != nil {
+		c.Fail("nlayer-error", nil, "%v", err)
+		return
+	}
+	want, _ := ref.SetOfExt(box)
+	for _, s := range line {
+		want[s] = struct{}{}
+	}
+	obs = append(obs, fmt.Sprintf("layers (%d,%d), box+line %d IDs, candidates %d", hl, vl, len(want), int64(len(line))*(2*hl+1)*(2*hl+1)*(2*vl+1)))
+	if missing, extra, same := ref.SameSet(gs, want); !same {
+		c.Fail("corridor-search-box", nil, "huge corridor differs from line + box for layers (%d,%d): missing %v, beyond %v", hl, vl, missing, extra)
+	}
+}
+
 func runC14(c *core.Case) {
+	if c.Tier == "thorough" && c.I < 2 {
+		c14Huge(c)
+		return
+	}
 	r := c.R
 	var h, v int64
 	if r.P(0.6) {
